@@ -39,6 +39,7 @@ def c03 (input implOut : Sexp) : Option Verdict := do
     else if !depthKept || !c03Same "depth" spec implOut then "leak"
     else if !c03Same "dump" spec implOut then
       (if Sexp.beq (c03DumpNoCounter spec) (c03DumpNoCounter implOut) then "count" else "lost-state")
+    else if !c03Same "built" spec implOut then "build"
     else if !Sexp.beq spec implOut then "wrong-value"
     else "-"
   pure { agree, holds := cls == "-", cls, model }
